@@ -42,7 +42,7 @@ CLAIMED = {
     'C11': ('_expand_vars on every value up to length 5/6 over {$,{,},A,_,x} with a symbolic value of A against a regex-free reference; '
             'one env / timeout instruction executed in a symbolic settings state; histories of k <= 2/3 cd / env / timeout instructions '
             'in every phase placement through the real MainProgram with probe processes recorded by a subprocess stand-in (env=, timeout=, '
-            'cwd) against a reference state machine; symbolic timeout literals and initial environment values.', '4/C11'),
+            'cwd) against a reference state machine; symbolic timeout literals and initial environment values. Round 7: the program behind the stdin of the action to check as a probe (non-act set, timeout and directory as of the end of [setup]).', '4/C11'),
     'C12': ('Real parse_path with the configuration objects of 12 real path arguments x 11 relativities x 15 file-name shapes; chains of '
             'def path / def string (depth <= 2 / 3) through the real def instruction and validate_symbol_usages; whole program (--keep) '
             'for file / dir / copy destinations in every phase with effects compared on disk and an unchanged home directory on rejection; '
@@ -89,7 +89,7 @@ CLAIMED = {
     'C04': ('The real full_execution.execute on stub test cases with a real sandbox: for every step family as the site where execution '
             'ends with every kind of ending, with and without --keep, with a misbehaving instruction (chdir, read-only files, '
             'environment changes, removed cwd), the layout seen from inside the first step, tmp/ staying empty, result/ after act, '
-            'removal/preservation of the sandbox and restoration of cwd and os.environ are as documented. Round 4: every output mode through the real standalone processor (sandbox left and path printed iff --keep).', '4/C04'),
+            'removal/preservation of the sandbox and restoration of cwd and os.environ are as documented. Round 4: every output mode through the real standalone processor (sandbox left and path printed iff --keep). Rounds 6-7: result files that exist before the act phase; entries created directly in the sandbox root.', '4/C04'),
     'C02': ('translate_status against the manual table; the three real result reporters on every kind of result with a symbolic '
             'exit code 0..255 of the action to check; and the chain stub case + symbolic fault plan -> real executor -> real '
             'standalone Processor.process -> real reporter, whose (exit code, stdout, stderr) must equal the documented table applied '
@@ -99,7 +99,7 @@ CLAIMED = {
             'the catalogue, every step as the site of the first fault with every applicable kind, followed by every later step '
             'failing or a failing cleanup instruction at every position, under every status, the recorded call trace, the '
             'previous-phase argument of cleanup, the reported status and failing step equal an independent model of the '
-            'documented protocol. Bounded: instruction counts <= 2 (quick) / <= 3 (thorough).', '4/C01'),
+            'documented protocol. Bounded: instruction counts <= 2 (quick) / <= 3 (thorough). Round 5: instruction-count vectors with exactly one empty phase in the quick tier.', '4/C01'),
     'C13': ('Every line-matcher expression template in the catalogue (shape, negations, connectives concrete; comparison '
             'operators, integer operands in Z, verdicts of unknown matchers, line number symbolic) parsed by the real parser: '
             'the interval analysis covers every accepted line; filter / -line-nums output equals per-line evaluation for all '
